@@ -32,7 +32,7 @@ RULE = ("cases: (n, flag vector) pairs; executions: for each, the well-formed li
 ASSUMPTIONS = ["numeric tokens are drawn from a finite alphabet + seed-derived values; names have no spaces",
                "tokens such as '1.0' or '1_0' in a flag column are not generated (their status as integers is not specified)"]
 REQUIRED_CLASSES = ['eof', 'rejected-count', 'rejected-flag', 'ok', 'reinterpreted-as-other-n', 'n=0', 'n=12',
-                    'roundtrip-ascii', 'roundtrip-pickle', 'roundtrip-dict', 'name-40', 'tabs', 'negative-and-placeholder', 'earlier-sources-rechecked']
+                    'roundtrip-ascii', 'roundtrip-pickle', 'roundtrip-dict', 'name-40', 'tabs', 'negative-and-placeholder', 'earlier-sources-rechecked', 'name-with-hash', 'edited-in-place-then-formatted-again']
 
 FLAGS = (0, 1, 2, 3, 4, 9)
 BADFLAGS = ['5', '8', '10', '-1', '1.5', '7']
@@ -176,6 +176,24 @@ def _roundtrips(rec, s, sub):
     rec.cls('roundtrip-ascii')
     if not ok:
         rec.violation('to_ascii|roundtrip', sub, {'formatted': line, 'source': [s.name, s.x, s.y, s.valid, s.flux, s.error]})
+    # a value and a flag changed in place after the first formatting: the second formatting shows the source as it is now
+    if s.n_wav:
+        try:
+            s.to_ascii()
+            j = s.n_wav - 1
+            old_v, old_f = int(s.valid[j]), float(s.flux[j])
+            s.valid[j] = 0 if old_v != 0 else 9
+            s.flux[j] = 4.25 if old_f != 4.25 else 8.5
+            s3 = Source.from_ascii(s.to_ascii())
+            ok = int(s3.valid[j]) == int(s.valid[j]) and abs(s3.flux[j] - s.flux[j]) <= 5.1e-4 * abs(s.flux[j])
+            s.valid[j] = old_v
+            s.flux[j] = old_f
+        except Exception as e:
+            ok = False
+        rec.ev()
+        rec.cls('edited-in-place-then-formatted-again')
+        if not ok:
+            rec.violation('to_ascii|stale-after-in-place-edit', sub, {'problem': 'to_ascii after an in-place change of a flag and a value does not show the change'})
     c0 = canon(s)
     for nm, f in (('pickle', lambda z: pickle.loads(pickle.dumps(z, 2))), ('dict', lambda z: Source.from_dict(z.to_dict()))):
         try:
@@ -197,7 +215,9 @@ def run_case(ctx, case, rec, d):
         rot = idx + ctx['seed']
         fl = [vals[(i * 3 + rot) % len(vals)] for i in range(n)]
         er = [vals[(i * 5 + 1 + rot // 3) % len(vals)] for i in range(n)]
-        name = ['s', 'SSTGLMC_G009.8925-00.3420', 'n' * 30, 'x' * 40][idx % 4]
+        name = ['s', 'SSTGLMC_G009.8925-00.3420', 'n' * 30, 'x' * 40, 'IRAS#16293-2422', 'a+b:c;d%e', '#1'][idx % 7]
+        if '#' in name:
+            rec.cls('name-with-hash')
         style = idx % 3
         base = [name, '12.34567', '-0.5'] + [str(f) for f in flags]
         for a, b in zip(fl, er):
